@@ -239,7 +239,7 @@ fn js_value_to_json_with_visited(
                             for member in &data.members {
                                 if let JsValue::Number(n) = &member.value {
                                     map.insert(
-                                        n.to_string(),
+                                        crate::value::number_to_string(*n),
                                         serde_json::Value::String(member.name.to_string()),
                                     );
                                 }
